@@ -351,7 +351,8 @@ D(g, X, p, c, env) ==
              r == DIterLH(it, X, p, c, env, Min2(ItLo(it, c), N), IF hi0 = Inf THEN N ELSE Min2(hi0, N))
          IN IF ~r.ok THEN r
             ELSE IF Len(r.val) = N THEN [r EXCEPT !.val = VA(@)]
-            ELSE Fail(r.fl)
+            \* too few items: a failure of its own at the position where the N-th item was wanted
+            ELSE Fail(r.fl \cup {EvTok(X, r.end, {})})
     [] o = "foldl" ->
          IF ~un.ok THEN un
          ELSE LET r == DIter(g[3], X, un.end, c, env) IN
